@@ -40,10 +40,14 @@ ROOTS = [
     ('Genotype', 'allelePair', None), ('Genotype', 'allelePairSqrt', None), ('Genotype', 'smallAllelePair', None),
 ]
 
-# `CallN.apply(alleles: IndexedSeq[Int], phased)` dispatches on the ploidy; Props/C34.lean transcribes the dispatch by hand
+# `CallN.apply(alleles: IndexedSeq[Int], phased)` dispatches on the ploidy; Model/CallEngine.lean transcribes the dispatch by hand
 # (`enginePack`), tied to this normalised text.
 CALLN_DISPATCH = ('val ploidy = alleles . length ( ploidy : @ switch ) match { case 0 => Call0 ( phased ) case 1 => Call1 ( alleles ( 0 ) , '
                   'phased ) case 2 => Call2 ( alleles ( 0 ) , alleles ( 1 ) , phased ) case _ => throw new UnsupportedOperationException }')
+CALL_ALLELES = ('( ploidy ( c ) : @ switch ) match { case 0 => ArraySeq ( ) case 1 => ArraySeq ( alleleByIndex ( c , 0 ) ) case 2 => '
+                'AllelePair . alleleIndices ( allelePair ( c ) ) case _ => throw new UnsupportedOperationException }')
+ALLELE_BY_INDEX_1 = 'case 1 => if ( i != 0 ) fatal ( STR ) alleleRepr ( c ) case 2'
+ALLELE_INDICES = 'ArraySeq ( j ( p ) , k ( p ) )'
 
 
 class Tok:
@@ -701,7 +705,17 @@ class Compiler:
 
 
 def _norm(toks: List[Tok]) -> str:
-    return ' '.join(t.text for t in toks)
+    return ' '.join('STR' if t.kind == 'str' else t.text for t in toks)
+
+
+def _body_of(by_name, obj, nm, what) -> str:
+    ms = by_name.get((obj, nm), [])
+    if len(ms) != 1:
+        raise TieBroken(f'{obj}.{nm} ({what}): found {len(ms)} definitions')
+    body = ms[0].body
+    if body and body[0].text == '{' and body[-1].text == '}':
+        body = body[1:-1]
+    return _norm(body)
 
 
 def translate(repo: str) -> Tuple[str, List[str]]:
@@ -754,7 +768,7 @@ def translate(repo: str) -> Tuple[str, List[str]]:
             raise TieBroken(f'root {obj}.{nm}{"/" + str(ar) if ar is not None else ""}: found {len(cands)} definitions in {FILES}')
         resolve(cands[0])
 
-    # CallN.apply dispatch (transcribed by hand in Props/C34.lean as `enginePack`)
+    # CallN.apply dispatch (transcribed by hand in Model/CallEngine.lean as `enginePack`)
     calln = [m for m in by_name.get(('CallN', 'apply'), []) if m.params and m.params[0][1] == 'IndexedSeq[Int]']
     if len(calln) != 1:
         raise TieBroken('CallN.apply(alleles: IndexedSeq[Int], phased) not found')
@@ -763,7 +777,15 @@ def translate(repo: str) -> Tuple[str, List[str]]:
         body = body[1:-1]
     if _norm(body) != CALLN_DISPATCH:
         raise TieBroken('CallN.apply no longer is the ploidy dispatch `0 => Call0(phased) | 1 => Call1(alleles(0), phased) | '
-                        '2 => Call2(alleles(0), alleles(1), phased)` that Props/C34.lean (`enginePack`) transcribes: ' + _norm(body)[:200])
+                        '2 => Call2(alleles(0), alleles(1), phased)` that Model/CallEngine.lean (`enginePack`) transcribes: ' + _norm(body)[:200])
+    # Call.alleles / alleleByIndex / AllelePair.alleleIndices (transcribed by hand as CallEngine.engineUnpack)
+    if _body_of(by_name, 'Call', 'alleles', 'engineUnpack') != CALL_ALLELES:
+        raise TieBroken('Call.alleles no longer is the ploidy dispatch that Model/CallEngine.lean (`engineUnpack`) transcribes: '
+                        + _body_of(by_name, 'Call', 'alleles', '')[:200])
+    if ALLELE_BY_INDEX_1 not in _body_of(by_name, 'Call', 'alleleByIndex', 'engineUnpack'):
+        raise TieBroken('Call.alleleByIndex: the ploidy-1 branch no longer is `alleleRepr(c)`')
+    if _body_of(by_name, 'AllelePair', 'alleleIndices', 'engineUnpack') != ALLELE_INDICES:
+        raise TieBroken('AllelePair.alleleIndices no longer is ArraySeq(j(p), k(p))')
     # RichBoolean.toInt
     try:
         rb = open(os.path.join(repo, RICH_BOOLEAN), encoding='utf-8').read()
@@ -791,7 +813,7 @@ def translate(repo: str) -> Tuple[str, List[str]]:
         out.append(m.emitted)
     out.append('end HailVerif.Generated.ScalaCall')
     notes.append(f'T tie: translated {len(order)} Scala members from Call.scala/Genotype.scala '
-                 f'({", ".join(m.lean_name for m in order)}); CallN.apply dispatch and RichBoolean.toInt matched textually')
+                 f'({", ".join(m.lean_name for m in order)}); CallN.apply, Call.alleles, alleleByIndex, AllelePair.alleleIndices dispatches and RichBoolean.toInt matched textually')
     return '\n'.join(out) + '\n', notes
 
 
